@@ -307,7 +307,7 @@ Lemma pc_add_point_ok_inv vs ps l l' ps' :
   wrun_spec (pc_add_point vs ps) l = (l', Ok (ps', CrOk)) ->
   ps_finalized ps = false /\ values_ok (w_proto (ps_w ps)) vs = true /\
   exists b1 w', update_bounds (ps_proto ps) vs (ps_bounds ps) = (b1, Ok tt) /\
-    ps' = mkPcs w' (ps_proto ps) b1 (ps_desc ps) false /\
+    ps' = mkPcs w' (ps_proto ps) b1 (ps_desc ps) false (ps_custom_il ps) (ps_custom_cl ps) /\
     wrun_spec (pcw_add_point vs (ps_w ps)) l = (l', Ok w').
 Proof.
   unfold pc_add_point. destruct (ps_finalized ps) eqn:Ef.
@@ -350,16 +350,19 @@ Proof.
 Qed.
 
 Lemma pc_finalize_step ps l : pc_inv ps l -> ls_ok l ->
-  (ps_finalized ps = true /\ wrun_spec (pc_finalize ps) l = (l, Ok (ps, None, CrErr EInvalid))) \/
-  (ps_finalized ps = false /\
+  ((ps_finalized ps = true \/ custom_limits_ok (ps_custom_il ps) (ps_custom_cl ps) (ps_desc ps) = false) /\
+   wrun_spec (pc_finalize ps) l = (l, Ok (ps, None, CrErr EInvalid))) \/
+  (ps_finalized ps = false /\ custom_limits_ok (ps_custom_il ps) (ps_custom_cl ps) (ps_desc ps) = true /\
    exists l' ps' d, wrun_spec (pc_finalize ps) l = (l', Ok (ps', Some d, CrOk)) /\
     pc_inv ps' l' /\ ls_ok l' /\ ls_le l l' /\
     d = desc_finish (ps_desc ps) (ps_bounds ps) (w_section_offset (ps_w ps)) (w_point_count (ps_w ps))).
 Proof.
   intros (Hp & Hmode) Hok. unfold pc_finalize.
   destruct Hmode as [Hfin|(Hfin & Hlive & Hcov & Hit)]; rewrite Hfin.
-  - left. split; reflexivity.
-  - right. split; [reflexivity|]. rewrite run_bind, wrun_spec_wtry.
+  - left. split; [left|]; reflexivity.
+  - destruct (custom_limits_ok (ps_custom_il ps) (ps_custom_cl ps) (ps_desc ps)) eqn:Ec; cbn [negb].
+    2:{ left. split; [right|]; reflexivity. }
+    right. split; [reflexivity|]. split; [reflexivity|]. rewrite run_bind, wrun_spec_wtry.
     destruct (finalize_live (ps_w ps) l Hlive Hok) as (l' & w2 & Hrun & Hdone & Hok' & Hle & Hp2 & _).
     rewrite Hrun. cbn [fst snd wret wrun_spec].
     exists l'. eexists. eexists. split; [reflexivity|].
@@ -483,7 +486,7 @@ Proof.
       destruct (Herr k Hk) as [-> ->]. split; [|reflexivity].
       destruct st; cbn in *. subst. reflexivity.
     + (* PcFinalize *)
-      destruct (pc_finalize_step ps l Hs Hok) as [(Hfin & Hrun)|(Hfin & l' & ps' & d & Hrun & Hpi & Hok' & Hle & _)].
+      destruct (pc_finalize_step ps l Hs Hok) as [(Hfin & Hrun)|(Hfin & _ & l' & ps' & d & Hrun & Hpi & Hok' & Hle & _)].
       * rewrite run_bind, Hrun. cbn [fst snd wret wrun_spec].
         eexists l, _, (CrErr EInvalid). split; [reflexivity|].
         split; [split; [exact Hok|cbn [ws_sub]; exact Hs]|]. split; [apply ls_le_refl|].
